@@ -75,6 +75,13 @@ CLAIMS = {
                  'memoisation stored on the per-Script InferenceState, buffer parsed with cache=False. Equality with a fresh process is not decided.',
         'technique': 'store inventory (who-may-write) + CFG must/gate rules + decorator-storage classification (ast)',
     },
+    'C17': {
+        'level': 'Jedi\'s side of position fidelity: a census of every start_pos definition in the name-class hierarchy (parso token / (1, 0) / '
+                 'None / two listed exceptions), line and column are its components, definition ranges come from the defining node with '
+                 'exactly the documented special case, get_line_code indexes the name\'s own module lines under a None test, and the '
+                 'definition/reference predicate of get_names is decided by its full truth table. parso\'s token positions are trusted.',
+        'technique': 'class-hierarchy census + def-use shape rules + truth-table evaluation of a boolean AST (ast)',
+    },
     'C19': {
         'level': 'Pruning and pre-filter, where a small edit silently leaks or loses files: the ignore table, slice-assignment pruning with '
                  'all three exclusions before sub-folders are yielded, propagation into os.walk, files filtered by the same ignore sets in '
